@@ -895,4 +895,142 @@ example : (load (demo false) demoFile 2 0 0 0).1.2 = none ∧
 
 example : UniqS (demo false) := by simp [UniqS, demo, St.blank]
 
+/-! ## after `add_cell_children_to_problem` -/
+
+/-- no two distinct materials of the pool can be `==` -/
+def NoCloneM (st : St) : Prop := ∀ a b, st.mshape a = st.mshape b → a = b
+
+theorem setAdd_fold_spec (eq : ObjId → ObjId → Bool) (hrefl : ∀ o, eq o o = true) : ∀ (l acc : List ObjId),
+    (∀ x ∈ acc, x ∈ l.foldl (setAdd eq) acc) ∧ (∀ o ∈ l, ∃ x ∈ l.foldl (setAdd eq) acc, eq o x = true) := by
+  intro l
+  induction l with
+  | nil => intro acc; exact ⟨fun _ h => h, fun o ho => by cases ho⟩
+  | cons a t ih =>
+    intro acc
+    simp only [List.foldl_cons]
+    obtain ⟨h1, h2⟩ := ih (setAdd eq acc a)
+    have hsub : ∀ x ∈ acc, x ∈ setAdd eq acc a := by
+      intro x hx; unfold setAdd; split
+      · exact hx
+      · exact List.mem_append_left _ hx
+    refine ⟨fun x hx => h1 x (hsub x hx), fun o ho => ?_⟩
+    rcases List.mem_cons.mp ho with rfl | ht
+    · by_cases hany : (acc.any fun x => eq o x) = true
+      · have hany' := hany
+        rw [List.any_eq_true] at hany'
+        obtain ⟨x, hx, he⟩ := hany'
+        exact ⟨x, h1 x (hsub x hx), he⟩
+      · have : o ∈ setAdd eq acc o := by unfold setAdd; rw [if_neg hany]; simp
+        exact ⟨o, h1 o this, hrefl o⟩
+    · exact h2 o ht
+
+theorem collect_spec (eq : ObjId → ObjId → Bool) (hrefl : ∀ o, eq o o = true) (items : ObjId → List ObjId) :
+    ∀ (cells acc : List ObjId),
+    (∀ x ∈ acc, x ∈ collect eq items cells acc) ∧
+    (∀ c ∈ cells, ∀ o ∈ items c, ∃ x ∈ collect eq items cells acc, eq o x = true) := by
+  intro cells
+  induction cells with
+  | nil => intro acc; exact ⟨fun _ h => h, fun c hc => by cases hc⟩
+  | cons a t ih =>
+    intro acc
+    unfold collect
+    simp only [List.foldl_cons]
+    obtain ⟨h1, h2⟩ := ih ((items a).foldl (setAdd eq) acc)
+    unfold collect at h1 h2
+    have hf := setAdd_fold_spec eq hrefl (items a) acc
+    refine ⟨fun x hx => h1 x (hf.1 x hx), fun c hc o ho => ?_⟩
+    rcases List.mem_cons.mp hc with rfl | ht
+    · obtain ⟨x, hx, he⟩ := hf.2 o ho
+      exact ⟨x, h1 x hx, he⟩
+    · exact h2 c ht o ho
+
+/-- **C16_children** — after a successful `add_cell_children_to_problem`, for every cell of the problem: every
+    surface in `cell.surfaces` is a member of `problem.surfaces` (what `write_to_file` iterates for the surface
+    block) and is linked; the transform of such a surface is a member of `problem.transforms`, is in
+    `data_inputs` (what `write_to_file` iterates for the data block) and is linked; the cell's material is a member
+    of `problem.materials`, is in `data_inputs` and is linked.  Identity statement: needs `NoClones` / `NoCloneM`
+    (with distinct-but-equal objects only one of them becomes a member: known finding C16-F1c). -/
+theorem C16_children (st : St) (hok : (addCellChildren st).2 = none) (hs : NoClones st) (hm : NoCloneM st)
+    (c : ObjId) (hc : c ∈ st.cells) :
+    c ∈ (addCellChildren st).1.cells ∧
+    (∀ s ∈ ((addCellChildren st).1.cellOf c).surfs,
+      s ∈ (addCellChildren st).1.surfaces ∧ (addCellChildren st).1.slink s = true ∧
+      ∀ t, st.strans s = some t → t ∈ (addCellChildren st).1.transforms ∧ t ∈ (addCellChildren st).1.dataT ∧
+        (addCellChildren st).1.tlink t = true) ∧
+    (∀ m, ((addCellChildren st).1.cellOf c).mat = some m →
+      m ∈ (addCellChildren st).1.materials ∧ m ∈ (addCellChildren st).1.dataM ∧
+      (addCellChildren st).1.mlink m = true) := by
+  unfold addCellChildren at hok ⊢
+  dsimp only at hok ⊢
+  split at hok
+  · cases hok
+  · rename_i hcond
+    rw [if_neg hcond]
+    dsimp only
+    have hS := (collect_spec (surfEq st) (fun o => by simp [surfEq]) (fun c => (st.cellOf c).surfs) st.cells st.surfaces).2 c hc
+    have hT := (collect_spec (fun x y => x == y) (fun o => by simp)
+      (fun c => (st.cellOf c).surfs.filterMap st.strans) st.cells st.transforms).2 c hc
+    have hM := (collect_spec (matEq st) (fun o => by simp [matEq]) (fun c => (st.cellOf c).mat.toList) st.cells st.materials).2 c hc
+    refine ⟨hc, fun s hsm => ?_, fun m hmat => ?_⟩
+    · obtain ⟨x, hx, he⟩ := hS s hsm
+      have hxe : s = x := by
+        unfold surfEq at he
+        simp only [Bool.and_eq_true, beq_iff_eq] at he
+        exact hs _ _ he.2
+      subst hxe
+      refine ⟨(mem_sortByNum _ _ _).mpr hx, by simp [hx], fun t ht => ?_⟩
+      obtain ⟨y, hy, hey⟩ := hT t (List.mem_filterMap.mpr ⟨s, hsm, ht⟩)
+      have : t = y := by simpa using hey
+      subst this
+      refine ⟨(mem_sortByNum _ _ _).mpr hy, ?_, by simp [hy]⟩
+      obtain ⟨z, hz, hez⟩ := (setAdd_fold_spec (fun x y => x == y) (fun o => by simp) _ st.dataT).2 t hy
+      have : t = z := by simpa using hez
+      subst this
+      exact hz
+    · obtain ⟨x, hx, he⟩ := hM m (by simp [hmat])
+      have hxe : m = x := by
+        unfold matEq at he
+        simp only [Bool.and_eq_true, beq_iff_eq] at he
+        exact hm _ _ he.2
+      subst hxe
+      refine ⟨(mem_sortByNum _ _ _).mpr hx, ?_, by simp [hx]⟩
+      obtain ⟨z, hz, hez⟩ := (setAdd_fold_spec (matEq st) (fun o => by simp [matEq]) _ st.dataM).2 m hx
+      have : m = z := by
+        unfold matEq at hez
+        simp only [Bool.and_eq_true, beq_iff_eq] at hez
+        exact hm _ _ hez.2
+      subst this
+      exact hz
+
+/-- … and against the forward links of the *geometry* (with the containment invariant): every surface the
+    geometry of a cell of the problem uses is a member of `problem.surfaces` and linked afterwards. -/
+theorem C16_children_geometry (st : St) (hok : (addCellChildren st).2 = none) (hi : InvContain st)
+    (hs : NoClones st) (hm : NoCloneM st) (c : ObjId) (hc : c ∈ st.cells) (g : HS)
+    (hg : (st.cellOf c).geom = some g) (s : ObjId) (hsg : s ∈ g.surfs) :
+    s ∈ (addCellChildren st).1.surfaces ∧ (addCellChildren st).1.slink s = true := by
+  have hsame := same_step st .addCellChildren trivial
+  have h := (C16_children st hok hs hm c hc).2.1 s (by
+    have : ((addCellChildren st).1.cellOf c).surfs = (st.cellOf c).surfs := (hsame.2 c).2.1
+    rw [this]; exact (hi c g hg).2.1 s hsg)
+  exact ⟨h.1, h.2.1⟩
+
+/-- a refused rebuild (two different objects with one number) changes nothing -/
+theorem C16_children_conflict (st : St) (h : (addCellChildren st).2 ≠ none) : (addCellChildren st).1 = st := by
+  unfold addCellChildren at h ⊢
+  dsimp only at h ⊢
+  split
+  · rfl
+  · rename_i hc; rw [if_neg hc] at h; exact absurd rfl h
+
+/-- non-vacuity: a cell from scratch with a new surface and a new material; afterwards both are members,
+    linked, and the material is in `data_inputs` -/
+example : NoCloneM (demo false) := by
+  intro a b hab
+  simpa [demo, St.blank] using hab
+
+example :
+    let st := run (demo false) [.append .cell 0, .setGeometry 0 (.leaf false 1 true none), .setMaterial 0 (some 2)]
+    (addCellChildren st).2 = none ∧ (addCellChildren st).1.surfaces = [1] ∧ (addCellChildren st).1.dataM = [2] ∧
+    (addCellChildren st).1.slink 1 = true ∧ (addCellChildren st).1.mlink 2 = true := by decide
+
 end MontePyVerif.Links
